@@ -13,6 +13,12 @@
 //! The model keeps, per entity, its current state and the kind of the last write that
 //! touched it (used only to *classify* a violation), and freezes a snapshot S[v] of all
 //! entities the moment `current_version` moves past v.
+//!
+//! Id reuse: by default (`Model::allow_reuse == false`, C08/C09) no entity is created once
+//! an id of its kind is free, so an id names one entity.  With `allow_reuse` (C07, knob)
+//! creation continues after deletions; the store pops its free list, and the model files the
+//! entity under the returned id as a new incarnation (`incarnation` > 0) as long as the
+//! previous holder is dead -- an id that belongs to a *live* entity is an `id_collision`.
 
 use super::model::*;
 use samyama::graph::{EdgeId, GraphStore, IsolationLevel, Label, NodeId, PropertyMap};
@@ -45,6 +51,9 @@ pub struct MNode {
     pub last_write: &'static str,
     /// versions at which this node was written (creation included)
     pub write_versions: BTreeSet<u64>,
+    /// 0 = the first entity that carried this id; k = the id had been used by k earlier,
+    /// deleted entities (only with `Model::allow_reuse`)
+    pub incarnation: u32,
 }
 
 #[derive(Clone, Debug)]
@@ -55,6 +64,12 @@ pub struct MEdge {
     pub created_with_props: bool,
     pub last_write: &'static str,
     pub write_versions: BTreeSet<u64>,
+    /// see `MNode::incarnation`
+    pub incarnation: u32,
+    /// set/remove property calls that reached this relationship (>0: it has a version log)
+    pub prop_writes: u32,
+    /// `prop_writes` of the deleted relationship that carried this id before (incarnation > 0)
+    pub pred_prop_writes: u32,
 }
 
 #[derive(Clone, Copy, Debug, PartialEq, Eq)]
@@ -95,11 +110,30 @@ pub struct Model {
     pub snaps: BTreeMap<u64, Snap>,
     pub txns: Vec<MTxn>,
     pub last_commit_version: u64,
+    /// Off (default; C08, C09): no entity is created once an id of its kind is free, so an id
+    /// names one entity for the whole history.  On (C07, per-run knob): creation goes on after
+    /// deletions, the store hands the freed id out again, and the entity created under it is
+    /// a *new incarnation* (`incarnation` > 0) that replaces the dead one in `nodes`/`edges`;
+    /// the frozen snapshots keep whichever incarnation was alive when they were taken.
+    pub allow_reuse: bool,
+    /// the history deleted a node / relationship at some point (reuse hides it from `any_dead_*`)
+    pub ever_deleted_node: bool,
+    pub ever_deleted_edge: bool,
 }
 
 impl Default for Model {
     fn default() -> Self {
-        Model { current: 1, nodes: BTreeMap::new(), edges: BTreeMap::new(), snaps: BTreeMap::new(), txns: Vec::new(), last_commit_version: 0 }
+        Model {
+            current: 1,
+            nodes: BTreeMap::new(),
+            edges: BTreeMap::new(),
+            snaps: BTreeMap::new(),
+            txns: Vec::new(),
+            last_commit_version: 0,
+            allow_reuse: false,
+            ever_deleted_node: false,
+            ever_deleted_edge: false,
+        }
     }
 }
 
@@ -243,8 +277,8 @@ pub fn apply(ev: &Value, g: &mut GraphStore, m: &mut Model, lim: &Limits) -> App
     let refused = |what: &str, detail: String| Applied::Refused { kind: kind.clone(), what: what.to_string(), detail };
     match kind.as_str() {
         "create_node" => {
-            // id reuse is excluded (entity identity would be ambiguous): no creation once an id is free
-            if m.any_dead_node() || m.live_nodes().len() >= lim.max_nodes {
+            // without `allow_reuse`: no creation once an id is free (an id names one entity)
+            if (!m.allow_reuse && m.any_dead_node()) || m.live_nodes().len() >= lim.max_nodes {
                 return Applied::Skipped;
             }
             let labels: Vec<String> = ev["labels"]
@@ -259,9 +293,13 @@ pub fn apply(ev: &Value, g: &mut GraphStore, m: &mut Model, lim: &Limits) -> App
                 g.create_node_with_labels(labels.iter().map(|l| Label::new(l.as_str())))
             }
             .as_u64();
-            if m.nodes.contains_key(&id) {
-                return refused("id_collision", format!("create_node returned id {id} which already exists in the history"));
-            }
+            // a freed id may come back (new incarnation); the id of a live entity never
+            let incarnation = match m.nodes.get(&id) {
+                None => 0,
+                Some(prev) if m.allow_reuse && !prev.alive => prev.incarnation + 1,
+                Some(prev) if prev.alive => return refused("id_collision", format!("create_node returned id {id} which belongs to a live node")),
+                Some(_) => return refused("id_collision", format!("create_node returned id {id} which already exists in the history")),
+            };
             let nl = labels.len();
             m.nodes.insert(
                 id,
@@ -271,12 +309,13 @@ pub fn apply(ev: &Value, g: &mut GraphStore, m: &mut Model, lim: &Limits) -> App
                     created_at: m.current,
                     last_write: "create_node",
                     write_versions: [m.current].into_iter().collect(),
+                    incarnation,
                 },
             );
-            done(format!("l{nl}p{}", with_props as u8))
+            done(format!("l{nl}p{}{}", with_props as u8, if incarnation > 0 { "r" } else { "" }))
         }
         "create_edge" => {
-            if m.any_dead_edge() || m.live_edges().len() >= lim.max_edges {
+            if (!m.allow_reuse && m.any_dead_edge()) || m.live_edges().len() >= lim.max_edges {
                 return Applied::Skipped;
             }
             let live = m.live_nodes();
@@ -292,9 +331,13 @@ pub fn apply(ev: &Value, g: &mut GraphStore, m: &mut Model, lim: &Limits) -> App
             match r {
                 Ok(eid) => {
                     let e = eid.as_u64();
-                    if m.edges.contains_key(&e) {
-                        return refused("id_collision", format!("create_edge returned id {e} which already exists in the history"));
-                    }
+                    let pred_prop_writes = m.edges.get(&e).map(|p| p.prop_writes).unwrap_or(0);
+                    let incarnation = match m.edges.get(&e) {
+                        None => 0,
+                        Some(prev) if m.allow_reuse && !prev.alive => prev.incarnation + 1,
+                        Some(prev) if prev.alive => return refused("id_collision", format!("create_edge returned id {e} which belongs to a live relationship")),
+                        Some(_) => return refused("id_collision", format!("create_edge returned id {e} which already exists in the history")),
+                    };
                     m.edges.insert(
                         e,
                         MEdge {
@@ -304,9 +347,12 @@ pub fn apply(ev: &Value, g: &mut GraphStore, m: &mut Model, lim: &Limits) -> App
                             created_with_props: with_props,
                             last_write: "create_edge",
                             write_versions: [m.current].into_iter().collect(),
+                            incarnation,
+                            prop_writes: 0,
+                            pred_prop_writes,
                         },
                     );
-                    done(format!("{}>{}p{}", rank(&live, sn), rank(&live, tn), with_props as u8))
+                    done(format!("{}>{}p{}{}", rank(&live, sn), rank(&live, tn), with_props as u8, if incarnation > 0 { "r" } else { "" }))
                 }
                 Err(err) => refused("refused_between_live_nodes", format!("{sn}->{tn}: {err}")),
             }
@@ -385,6 +431,7 @@ pub fn apply(ev: &Value, g: &mut GraphStore, m: &mut Model, lim: &Limits) -> App
                 me.last_write = "remove_eprop";
             }
             me.write_versions.insert(cur);
+            me.prop_writes += 1;
             done(format!("{}:{k}", rank(&live, e)))
         }
         "delete_node" => {
@@ -394,8 +441,10 @@ pub fn apply(ev: &Value, g: &mut GraphStore, m: &mut Model, lim: &Limits) -> App
                 return refused("refused_live_node", format!("node {n}: {err}"));
             }
             let cur = m.current;
+            m.ever_deleted_node = true;
             for (_, e) in m.edges.iter_mut() {
                 if e.alive && (e.st.src == n || e.st.dst == n) {
+                    m.ever_deleted_edge = true;
                     e.alive = false;
                     e.last_write = "delete_node";
                     e.write_versions.insert(cur);
@@ -414,6 +463,7 @@ pub fn apply(ev: &Value, g: &mut GraphStore, m: &mut Model, lim: &Limits) -> App
                 return refused("refused_live_edge", format!("edge {e}: {err}"));
             }
             let cur = m.current;
+            m.ever_deleted_edge = true;
             let me = m.edges.get_mut(&e).unwrap();
             me.alive = false;
             me.last_write = "delete_edge";
